@@ -313,7 +313,7 @@ def withIndex (raw : List Site) : List Site :=
   (List.range raw.length).zip raw |>.map fun (i, s) => { s with index := i }
 
 theorem sites_eq (p : Particle) : sites p = withIndex (sitesAux p [] 1).1 := rfl
-theorem dtdSites_eq (c : DtdContent) : dtdSites c = withIndex (buildContent c {} 1).1 := rfl
+theorem dtdSites_eq (c : DtdContent) : dtdSites c = withIndex (buildContent c [] 1).1 := rfl
 
 theorem withIndex_names (raw : List Site) : (withIndex raw).map (·.name) = raw.map (·.name) := by
   unfold withIndex
